@@ -15,16 +15,26 @@ import (
 	"time"
 
 	"git.torproject.org/pluggable-transports/snowflake.git/v2/common/ipsetsink"
-	en "git.torproject.org/pluggable-transports/snowflake.git/v2/verifenum"
 	"git.torproject.org/pluggable-transports/snowflake.git/v2/verifclock"
+	en "git.torproject.org/pluggable-transports/snowflake.git/v2/verifenum"
 )
 
 type syncBuf struct {
 	bytes.Buffer
-	lines []string
+	lines  []string
+	calls  int
+	failAt int // the failAt-th Write fails and writes nothing (0: never)
 }
 
 func (s *syncBuf) Sync() error { return nil }
+
+func (s *syncBuf) Write(p []byte) (int, error) {
+	s.calls++
+	if s.calls == s.failAt {
+		return 0, fmt.Errorf("disk full")
+	}
+	return s.Buffer.Write(p)
+}
 
 func addrN(i int) string { return fmt.Sprintf("10.%d.%d.%d", i>>16&255, i>>8&255, i&255) }
 
@@ -37,16 +47,23 @@ func TestVerifEnumC19Journal(t *testing.T) {
 	// a journal is built from a list of chunks; chunk k receives its addresses spread over the k-th
 	// interval; the writer flushes a chunk lazily when the first address after the interval arrives
 	type chunkSpec struct{ first, n int } // addresses addrN(first..first+n-1)
+	failAt := 0                           // which flush of the journal fails (set by the sections below)
+	var perEntryTimes []map[string]time.Time
 	build := func(chunks []chunkSpec) (journal []byte, entries []SinkEntry, perEntry []map[string]bool, err error) {
 		verifclock.Set(epoch)
 		var out syncBuf
+		out.failAt = failAt
+		perEntryTimes = nil
+		currentTimes := map[string]time.Time{}
 		w := NewClusterWriter(&out, interval, ipsetsink.NewIPSetSink("masking-key"))
 		current := map[string]bool{}
 		flushWatch := func() {
 			// learn which addresses went into which chunk by watching lines arrive at the writer
 			for strings.Count(out.String(), "\n") > len(perEntry) {
 				perEntry = append(perEntry, current)
+				perEntryTimes = append(perEntryTimes, currentTimes)
 				current = map[string]bool{}
+				currentTimes = map[string]time.Time{}
 			}
 		}
 		for k, c := range chunks {
@@ -60,12 +77,21 @@ func TestVerifEnumC19Journal(t *testing.T) {
 					flushWatch()
 				}
 				current[a] = true
+				if _, seen := currentTimes[a]; !seen {
+					currentTimes[a] = verifclock.Now()
+				}
 			}
 		}
-		// a final flush so that the last chunk is on disk as well
+		// a final flush so that the last chunk is on disk as well (twice, in case the first one is the
+		// flush that fails)
 		verifclock.Set(epoch.Add(time.Duration(len(chunks)) * (interval + time.Minute)))
 		w.WriteIPSetToDisk()
 		flushWatch()
+		if out.failAt != 0 {
+			verifclock.Set(epoch.Add(time.Duration(len(chunks))*(interval+time.Minute) + time.Minute))
+			w.WriteIPSetToDisk()
+			flushWatch()
+		}
 		journal = out.Bytes()
 		for _, line := range bytes.Split(bytes.TrimSpace(journal), []byte("\n")) {
 			if len(line) == 0 {
@@ -89,6 +115,16 @@ func TestVerifEnumC19Journal(t *testing.T) {
 		if len(entries) != len(perEntry) {
 			r.Fail("journal:harness", fmt.Sprintf("%d entries but %d flushes observed", len(entries), len(perEntry)), name)
 			return
+		}
+		// every chunk covers the moments at which its addresses were recorded (a window can only report
+		// addresses seen during it)
+		for k, e := range entries {
+			for a, at := range perEntryTimes[k] {
+				if at.Before(e.RecordingStart) || at.After(e.RecordingEnd) {
+					r.Fail("journal:chunk-does-not-cover-its-addresses", fmt.Sprintf("chunk %d claims [%v, %v] but holds address %s recorded at %v", k, e.RecordingStart, e.RecordingEnd, a, at), name)
+					return
+				}
+			}
 		}
 		// no address text in the file
 		for _, c := range chunks {
@@ -164,6 +200,22 @@ func TestVerifEnumC19Journal(t *testing.T) {
 			}
 		}
 	}
+	r.Begin("journal-failed-flush", "the same chunkings with the 1st, 2nd, 3rd or 4th flush of the journal failing once (Write returns an error and writes nothing; the next flush succeeds): every chunk on disk covers the moments at which its addresses were recorded, windows select and count as before")
+	for failAt = 1; failAt <= 4; failAt++ {
+		for _, a := range []int{1, 2, 8} {
+			if !r.Mine() {
+				continue
+			}
+			check(fmt.Sprintf("fail%d:1chunk:%d", failAt, a), []chunkSpec{{0, a}}, true)
+			for _, b := range []int{0, 1, 8} {
+				check(fmt.Sprintf("fail%d:2chunks:%d,%d", failAt, a, b), []chunkSpec{{0, a}, {a / 2, b}}, true)
+				for _, c := range []int{1, 8} {
+					check(fmt.Sprintf("fail%d:3chunks:%d,%d,%d", failAt, a, b, c), []chunkSpec{{0, a}, {a / 2, b}, {20, c}}, true)
+				}
+			}
+		}
+	}
+	failAt = 0
 	r.Begin("journal-large", "10^3 and 10^5 addresses (deterministic: fixed key): estimate within 2 %, journal readable")
 	if r.Shard0() {
 		check("large:1000", []chunkSpec{{0, 1000}}, false)
